@@ -44,6 +44,8 @@ def run(ck: Check):
                     ck.violation(f"{strategy}/{atom}: the init hook appended a line to the testcase file, the test answered {v}: "
                                  f"{run_.writes} write(s) by lithium, {run_.tests} test(s), status {run_.rc}, exc={run_.exc}, file now "
                                  f"{run_.final!r} (nothing may be written: expected 1 test and the file as the hook left it)", _rd(ctx, run_))
+    from envmatrix import run_matrix
+    run_matrix(ck, ("C11",))
     # file names at the limits of the file system: an extension so long that 'original<ext>' / '<n>-boring<ext>' in the
     # temp dir has NAME_MAX-1, NAME_MAX, NAME_MAX+1 bytes (and ordinary lengths).  Whatever happens to the copies - they
     # fit, or the run stops with the OS error - a rejected original is never written to, and a run that works reports
